@@ -66,15 +66,20 @@ func allCfgs(f func(Cfg)) {
 	}
 }
 
-// the 6 protocol versions and 7 revisions the package names, plus one unknown string each
-var versions = []string{band.LoRaWAN_1_0_0, band.LoRaWAN_1_0_1, band.LoRaWAN_1_0_2, band.LoRaWAN_1_0_3, band.LoRaWAN_1_0_4, band.LoRaWAN_1_1_0, unknownVersion}
-var revisions = []string{band.RegParamRevA, band.RegParamRevB, band.RegParamRevC, band.RegParamRevRP002_1_0_0, band.RegParamRevRP002_1_0_1, band.RegParamRevRP002_1_0_2, band.RegParamRevRP002_1_0_3, unknownRevision}
+// the 6 protocol versions and 7 revisions the package names, plus three unknown strings each: one that resembles
+// nothing and two that begin like a named constant (a string that is not one of the constants is unknown)
+var versions = []string{band.LoRaWAN_1_0_0, band.LoRaWAN_1_0_1, band.LoRaWAN_1_0_2, band.LoRaWAN_1_0_3, band.LoRaWAN_1_0_4, band.LoRaWAN_1_1_0, unknownVersion, "1.0.3-rc1", "1.0.1.1"}
+var revisions = []string{band.RegParamRevA, band.RegParamRevB, band.RegParamRevC, band.RegParamRevRP002_1_0_0, band.RegParamRevRP002_1_0_1, band.RegParamRevRP002_1_0_2, band.RegParamRevRP002_1_0_3, unknownRevision, "RP002-1.0.1b", "RP002-1.0.0a"}
 
 const (
 	unknownVersion  = "9.9.9"
 	unknownRevision = "RP-unknown"
 	latestKey       = "latest" // the tables' key of the fallback entry
 )
+
+func unknownString(s string) bool {
+	return s == unknownVersion || s == unknownRevision || s == "1.0.3-rc1" || s == "1.0.1.1" || s == "RP002-1.0.1b" || s == "RP002-1.0.0a"
+}
 
 func sortedKeys[V any](m map[string]V) []string {
 	out := make([]string, 0, len(m))
@@ -353,7 +358,7 @@ func checkGrid(c gridCase) evid.Outcome {
 	got, gerr := o.b.GetMaxPayloadSizeForDataRateIndex(c.Version, c.Revision, c.DR)
 	table, path, ok := resolve(o.snap, c.Version, c.Revision)
 	_, defined := o.snap.DataRates[c.DR]
-	bothUnknown := c.Version == unknownVersion && c.Revision == unknownRevision
+	bothUnknown := unknownString(c.Version) && unknownString(c.Revision)
 	if bothUnknown {
 		if !ok || path != latestKey+"/"+latestKey {
 			return evid.Fail("%s: the band has no latest/latest max-payload table (resolved %q)", call, path)
@@ -833,7 +838,7 @@ func TestProp(t *testing.T) {
 		}, checkIndex)
 
 	evid.Exhaustive(r, t, "size-grid",
-		"56 configurations x 7 protocol versions (6 named + unknown string) x 8 revisions (7 named + unknown string) x DR 0..15 through GetMaxPayloadSizeForDataRateIndex. Oracle: the documented resolution applied to the snapshot (unknown version -> latest, unknown revision -> that version's latest), which the getter must reproduce; under unknown/unknown every defined data-rate must have a size, and for no pair of strings may the lookup of a defined data-rate fail for want of a table; every returned size is M=N+8 with N<=242 or the (0,0) marker (only AS923/AU915 DR0-1 under dwell time and CN470 DR0). Non-trivial: a size is returned.",
+		"56 configurations x 9 protocol versions (6 named + 3 unknown strings, two of which begin like a named one: 1.0.3-rc1, 1.0.1.1) x 10 revisions (7 named + 3 unknown strings, among them RP002-1.0.1b, RP002-1.0.0a) x DR 0..15 through GetMaxPayloadSizeForDataRateIndex. Oracle: the documented resolution applied to the snapshot (unknown version -> latest, unknown revision -> that version's latest), which the getter must reproduce; under unknown/unknown every defined data-rate must have a size, and for no pair of strings may the lookup of a defined data-rate fail for want of a table; every returned size is M=N+8 with N<=242 or the (0,0) marker (only AS923/AU915 DR0-1 under dwell time and CN470 DR0). Non-trivial: a size is returned.",
 		true,
 		func(emit func(gridCase)) { enumGrid(allCfgs, emit) }, checkGrid)
 
